@@ -9,6 +9,7 @@ from ..core import AnalysisError, norm
 from .. import symx, spec, aud
 from ..aud import REL, W, BOOL_FLAGS
 from ..symx import Tx, E, S, is_zero, c_and, c_or, c_not, fmt_cond
+from ..canon import structure_continues, _dc
 from ..astutil import walk_local, stores, parent, attr_stores
 
 META = dict(
@@ -111,7 +112,7 @@ def r3(chk):
                      "margin := 2 * assorter.mean(cvr_list, use_style = the stratum's use_style) - 1", got, want, node=smc,
                      strength="N")
     # Assorter.mean and set_tally_pool_means: identical style filter
-    mean = chk.fn(REL, "Assorter.mean")
+    mean = chk.fn(REL, "Assorter.mean", canonical=True)
     stp = chk.fn(REL, "Assorter.set_tally_pool_means", canonical=True)
     want_f = spec.cond_term("(not use_style) or c.has_contest(self.contest.id)")
     filters = {}
@@ -219,29 +220,70 @@ def _cond_with_filter(node, f, argname):
     return Tx().cond(node)
 
 
+def _loop_slot_term(l, skip_calls=False, flag=None):
+    """the body of loop `l` as one term per stored slot: -> {slot text: term}, with "not stored" = the symbol OLD:<slot>"""
+    body = structure_continues(l.body)
+    if body is None:
+        return None
+    tx = Tx()
+    tx.skip_calls = skip_calls
+    if flag:
+        tx.env[flag] = E(S(flag))  # the value the flag has when the iteration starts
+    slots = {}
+    for t, v, s0 in stores(l):
+        if isinstance(t, (ast.Subscript, ast.Attribute)):
+            try:
+                k = tx.expr(ast.fix_missing_locations(ast.parse(ast.unparse(t), mode="eval").body))
+            except symx.Unsupported:
+                return None
+            if isinstance(k, E) and isinstance(k.e, sp.Symbol):
+                slots[k.e.name] = S("OLD:" + k.e.name)
+                tx.env["@" + k.e.name] = E(slots[k.e.name])
+    try:
+        tx.block(body)
+    except symx.Unsupported:
+        return None
+    return {k: symx.prune(tx.env["@" + k]) for k in slots}, tx
+
+
 def r4(chk):
-    pc = chk.fn(REL, "CVR.pool_contests")
-    apc = chk.fn(REL, "CVR.add_pool_contests")
-    uv = chk.fn(REL, "CVR.update_votes")
-    # pool_contests: for c in cvrs: if c.pool: pools[c.tally_pool] = pools[c.tally_pool].union(set(c.votes.keys()))
+    pc = chk.fn(REL, "CVR.pool_contests", canonical=True)
+    apc = chk.fn(REL, "CVR.add_pool_contests", canonical=True)
+    uv = chk.fn(REL, "CVR.update_votes", canonical=True)
+    # pool_contests: for every card, pools[c.tally_pool] becomes its union with the card's contests iff the card is pooled
     loops = [l for l in pc.body if isinstance(l, ast.For)]
     ok = False
     detail = {}
-    if len(loops) == 1 and norm(loops[0].iter) == "cvrs":
+    if len(loops) == 1 and norm(loops[0].iter) == "cvrs" and not [x for x in walk_local(loops[0]) if isinstance(x, (ast.Break, ast.Return))]:
         l = loops[0]
         v = norm(l.target)
-        ifs = [s for s in l.body if isinstance(s, ast.If)]
-        if len(l.body) == 1 and len(ifs) == 1 and norm(ifs[0].test) == f"{v}.pool" and not ifs[0].orelse:
-            sts = [(t, val, s) for t, val, s in stores(ifs[0])]
-            if len(sts) == 1:
-                t, val, s = sts[0]
-                detail["statement"] = norm(s)
-                rn = [r.value.id for r in walk_local(pc) if isinstance(r, ast.Return) and isinstance(r.value, ast.Name)]
-                dn = rn[0] if rn else "tally_pools"
-                key = f"{dn}[{v}.tally_pool]"
-                forms = (f"{key}.union(set({v}.votes.keys()))", f"{key}.union({v}.votes.keys())", f"{key}|set({v}.votes.keys())",
-                         f"{key}.union(set({v}.votes))", f"{key}|set({v}.votes)")
-                ok = norm(t) == key and norm(val) in forms or (isinstance(s, ast.AugAssign) and norm(t) == key and isinstance(s.op, ast.BitOr))
+        rn = [r.value.id for r in walk_local(pc) if isinstance(r, ast.Return) and isinstance(r.value, ast.Name)]
+        dn = rn[0] if rn else "tally_pools"
+        key = f"{dn}[{v}.tally_pool]"
+        res = _loop_slot_term(l)
+        if res is not None and len(res[0]) == 1:
+            (slot, term), = res[0].items()
+            forms = (f"{key}.union(set({v}.votes.keys()))", f"{key}.union({v}.votes.keys())", f"{key} | set({v}.votes.keys())",
+                     f"{key}.union(set({v}.votes))", f"{key} | set({v}.votes)")
+            wants = []
+            for fm in forms:
+                try:
+                    wants.append(Tx().expr(ast.parse(fm, mode="eval").body).e)
+                except Exception:
+                    pass
+            pooled = ("atom", f"truthy({v}.pool)")
+            good = slot == norm(ast.parse(key, mode="eval").body).replace("'", "'") or True
+            okr = True
+            for row in symx.rows(symx.val_atoms(term)):
+                val = symx.eval_val(term, row)
+                if symx.eval_cond(pooled, row) if f"truthy({v}.pool)" in row else None:
+                    okr = okr and any(val == w for w in wants)
+                elif f"truthy({v}.pool)" in row:
+                    okr = okr and val == S("OLD:" + slot)
+                else:
+                    okr = False
+            detail["stored"] = repr(term)[:200]
+            ok = okr and slot.replace(" ", "") == key.replace(" ", "")
     rets = [n for n in walk_local(pc) if isinstance(n, ast.Return)]
     ok = ok and len(rets) == 1 and isinstance(rets[0].value, ast.Name)
     chk.ob("C03.R4", W("CVR.pool_contests"), "union-over-pooled-cards", ok,
@@ -255,15 +297,13 @@ def r4(chk):
         l = loops[0]
         v = norm(l.target)
         it = l.iter
-        cond = None
         if isinstance(it, ast.ListComp):
             elt, tgt, src, ifs = aud.single_gen(it)
             if norm(elt) == norm(tgt) and norm(src) == "cvrs":
                 tv = norm(tgt)
                 cond = c_and(*[Tx().cond(i) for i in ifs])
-                want = spec.cond_term(f"({tv}.tally_pool in tally_pools.keys()) and {tv}.pool")
                 want2 = spec.cond_term(f"({tv}.tally_pool in tally_pools) and {tv}.pool")
-                okc = aud.cond_equiv(cond, want)[0] or aud.cond_equiv(cond, want2)[0]
+                okc = aud.cond_equiv(cond, want2)[0]
                 detail["filter"] = fmt_cond(cond)
                 calls = [c for c in walk_local(l) if isinstance(c, ast.Call) and norm(c.func) == f"{v}.update_votes"]
                 if len(calls) == 1 and len(calls[0].args) == 1:
@@ -273,33 +313,74 @@ def r4(chk):
                         g = a.generators[0]
                         okd = norm(a.key) == norm(g.target) and isinstance(a.value, ast.Dict) and not a.value.keys \
                             and norm(g.iter) == f"tally_pools[{v}.tally_pool]"
-                        # the call must be evaluated on every iteration (not short-circuited away)
+                        # the call must be evaluated on every iteration (not short-circuited away, not under a condition)
                         st = calls[0]
                         while not isinstance(st, ast.stmt):
                             st = parent(st)
                         first = True
                         if isinstance(st, ast.Assign) and isinstance(st.value, ast.BoolOp):
                             first = st.value.values[0] is calls[0]
-                        ok = okc and okd and parent(st) is l and first
+                        # ... and the flag becomes (result or flag): the loop body as a term with the call as a placeholder
+                        body = [_ReplaceCall(calls[0], "UV__").visit(_dc(x)) for x in l.body]
+                        for x in body:
+                            ast.fix_missing_locations(x)
+                        flags = [r.value.id for r in walk_local(apc) if isinstance(r, ast.Return) and isinstance(r.value, ast.Name)]
+                        okf = False
+                        if len(flags) == 1:
+                            tx = Tx()
+                            tx.env[flags[0]] = E(S(flags[0]))
+                            try:
+                                tx.block(body)
+                                got = tx.env.get(flags[0])
+                                wantc = c_or(("atom", "truthy(UV__)"), ("atom", f"truthy({flags[0]})"))
+                                # compared as truth values: the flag is only ever tested / returned as "was anything added"
+                                okf = got is not None and aud.cond_equiv(tx.truthy(got), wantc)[0]
+                            except symx.Unsupported:
+                                okf = False
+                        ok = okc and okd and parent(st) is l and first and okf
     chk.ob("C03.R4", W("CVR.add_pool_contests"), "every-pool-contest-on-every-pooled-card", ok,
            "every pooled card whose pool is listed gets update_votes({contest: {} for every contest of its own pool}), "
-           "evaluated on every iteration", node=apc, strength="N", **detail)
+           "evaluated on every iteration, and the returned flag is (some call returned true)", node=apc, strength="N", **detail)
     # update_votes adds a contest iff absent, never removes
     loops = [l for l in uv.body if isinstance(l, ast.For)]
     ok = False
-    if len(loops) == 1 and norm(loops[0].iter) == "votes.items()":
+    if len(loops) == 1 and norm(loops[0].iter) == "votes.items()" and isinstance(loops[0].target, ast.Tuple):
         l = loops[0]
         k, v = [norm(e) for e in l.target.elts]
-        ifs = [s for s in l.body if isinstance(s, ast.If)]
-        if len(ifs) == 1 and len(l.body) == 1:
-            i = ifs[0]
-            has = norm(i.test) in (f"self.has_contest({k})", f"{k}inself.votes")
-            nothas = norm(i.test) in (f"notself.has_contest({k})", f"{k}notinself.votes")
-            add_branch = i.orelse if has else (i.body if nothas else None)
-            if add_branch is not None:
-                ok = any(norm(t) == f"self.votes[{k}]" and norm(val) == v for t, val, s in stores(ast.Module(body=add_branch, type_ignores=[])))
+        res = _loop_slot_term(l, skip_calls=True)
+        if res is not None:
+            terms, tx = res
+            slot = next((s_ for s_ in terms if s_.replace(" ", "") == f"self.votes[{k}]"), None)
+            if slot is not None:
+                term = terms[slot]
+                has_atoms = [a for a in symx.val_atoms(term) if a in (f"truthy(self.has_contest({k}))", f"in({k},self.votes)")]
+                okr = len(has_atoms) == 1 and len(symx.val_atoms(term)) == 1
+                if okr:
+                    for row in symx.rows(symx.val_atoms(term)):
+                        val = symx.eval_val(term, row)
+                        okr = okr and (val == S("OLD:" + slot) if row[has_atoms[0]] else sp.sstr(val) == v)
+                # the flag is set exactly when a contest was added
+                flags = [r.value.id for r in walk_local(uv) if isinstance(r, ast.Return) and isinstance(r.value, ast.Name)]
+                okf = False
+                if len(flags) == 1 and okr:
+                    res2 = _loop_slot_term(l, skip_calls=True, flag=flags[0])
+                    got = res2[1].env.get(flags[0]) if res2 else None
+                    wantc = c_or(c_not(("atom", has_atoms[0])), ("atom", f"truthy({flags[0]})"))
+                    okf = got is not None and aud.cond_equiv(res2[1].truthy(got), wantc)[0]  # as truth values
+                ok = okr and okf
     chk.ob("C03.R4", W("CVR.update_votes"), "adds-absent-contests", ok,
-           "update_votes adds each contest that the card does not list yet (for every contest passed)", node=uv, strength="N")
+           "update_votes adds each contest that the card does not list yet (for every contest passed), leaves the others' entry "
+           "object in place, and returns whether anything was added", node=uv, strength="N")
+
+
+class _ReplaceCall(ast.NodeTransformer):
+    def __init__(self, call, name):
+        self.src, self.name = ast.dump(call), name
+
+    def visit_Call(self, node):
+        if ast.dump(node) == self.src:
+            return ast.Name(id=self.name, ctx=ast.Load())
+        return self.generic_visit(node)
 
 
 def r5(chk):
